@@ -44,3 +44,7 @@ func zzDispatch() (wid [3]uint32, garbage []uint32) {
 	garbage = []uint32{zz.U32("stale0"), zz.U32("stale1"), zz.U32("stale2")}
 	return
 }
+
+// zzUniformImage is the byte image (as words) of the uniform buffer handed to the text
+// evaluators by zzCompileAndRun{HLSL,MSL,GLSL}; nil for programs without one.
+var zzUniformImage []uint32
